@@ -4,6 +4,7 @@ import CoapLite.Driver.Bv
 import CoapLite.Driver.Pkt
 import CoapLite.Driver.Uint
 import CoapLite.Driver.Acc
+import CoapLite.Driver.Obs
 
 open CoapLite.Driver
 
@@ -15,6 +16,7 @@ def dispatch (line : String) : String :=
   | "UINT" :: rest => uint rest
   | "RESP" :: rest => resp rest
   | "ACC" :: rest => acc rest
+  | "OBS" :: rest => obs rest
   | _ => "bad-domain"
 
 partial def loop (hin : IO.FS.Stream) (hout : IO.FS.Stream) (buf : String) (n : Nat) : IO Unit := do
